@@ -31,7 +31,9 @@ func init() {
 		resetOptions()
 		mxj.XMLEscapeChars(true)
 		src := c16Source{kind: k.Kind, xml: k.Xml, js: string(k.Json), list: k.List}
-		if k.Kind == "sinks" {
+		if k.Kind == "odd-root" {
+			c16OddRoot(c, string(k.Json))
+		} else if k.Kind == "sinks" {
 			c16Sinks(c, k.Xml)
 			c16RawOnFailingSink(c, k.Xml)
 		} else {
@@ -118,6 +120,9 @@ func c16Encoders(c *Ctx, src c16Source, viol func(api, clause, detail string)) [
 	switch src.kind {
 	case "map":
 		build := func() mxj.Map {
+			if src.js == "null" {
+				return nil // the nil Map (var m mxj.Map; what NewMapJson gives for "null")
+			}
 			if src.js != "" {
 				return mxj.Map(fromJSON(src.js).(map[string]interface{}))
 			}
@@ -637,7 +642,7 @@ func c16RawOnFailingSink(c *Ctx, xmlDoc string) {
 func c16Run(c *Ctx) {
 	mustBeDefault(c)
 	mxj.XMLEscapeChars(true)
-	c.S.Rule = "cases = source value x every encoder entry point: Maps decoded from the U-XML documents (<= N elements, <= 1-2 decorations) and JSON-shaped Maps (<= M nodes, keys {a,b,-x,#text}), MapSeqs decoded from the same documents, and lists of 1..3 Maps; entry points Xml, XmlIndent, XmlWriter, XmlIndentWriter (Map and MapSeq), Json, JsonIndent, JsonWriter[Raw], JsonIndentWriter[Raw] (default and safe), StringIndent, Maps.XmlString[Indent], Maps.JsonString[Indent], the four ...File writers; indent/prefix pairs over blanks; sinks accept-all, fail-at-once, short-write, and fail-after-k-bytes for every k (then accepting again). Each entry point is executed under ascending and descending map-iteration order, twice in a row, and under every sequence of <= B deviations from the sorted order at every range-over-map inside the encoder (E-choice). Oracle: byte-identical output in all executions; attributes and child elements ascending; indented = compact up to whitespace-only character data; Writer/Raw/File forms = byte forms; sink errors returned, what reached a failing sink is exactly a prefix of the full output and nothing is written after the failure, and the Raw forms still return the whole encoding; Maps forms = concatenation. non-trivial = source encoded by every entry point."
+	c.S.Rule = "cases = source value x every encoder entry point: Maps decoded from the U-XML documents (<= N elements, <= 1-2 decorations) and JSON-shaped Maps (<= M nodes, keys {a,b,-x,#text}), MapSeqs decoded from the same documents, the nil Map and the empty Map, and lists of 1..3 Maps; entry points Xml, XmlIndent, XmlWriter, XmlIndentWriter (Map and MapSeq), Json, JsonIndent, JsonWriter[Raw], JsonIndentWriter[Raw] (default and safe), StringIndent, Maps.XmlString[Indent], Maps.JsonString[Indent], the four ...File writers; indent/prefix pairs over blanks; sinks accept-all, fail-at-once, short-write, and fail-after-k-bytes for every k (then accepting again). Each entry point is executed under ascending and descending map-iteration order, twice in a row, and under every sequence of <= B deviations from the sorted order at every range-over-map inside the encoder (E-choice). Oracle: byte-identical output in all executions; attributes and child elements ascending; indented = compact up to whitespace-only character data; Writer/Raw/File forms = byte forms; sink errors returned, what reached a failing sink is exactly a prefix of the full output and nothing is written after the failure, and the Raw forms still return the whole encoding; Maps forms = concatenation. non-trivial = source encoded by every entry point."
 	c.S.Assumptions = []string{"gob output is excluded from the determinism clause (encoding/gob encodes maps in iteration order by design; the property names XML and JSON)", "runtime hash order is replaced by the owned order; a free-running pass on the uninstrumented build is supplementary"}
 	n1, nj, b := 3, 4, 2
 	if c.Thorough {
@@ -713,6 +718,25 @@ func c16Run(c *Ctx) {
 			c.S.Nontrivial++
 		}
 	})
+	// roots keyed by a special key (a lone "#text" or attribute key, or one beside an ordinary key): what the
+	// encoders emit for them is not XML, but the variants must still agree with one another
+	for _, js := range []string{`{"#text":"s"}`, `{"-x":"s"}`, `{"#text":{"-x":"1","b":"c"}}`, `{"#text":"s","a":"t"}`, `{"-x":"1","a":"t"}`, `{"#text":["s","t"]}`, `{"#text":1.5}`} {
+		if !c.Mine() {
+			continue
+		}
+		c.S.States++
+		c.S.Evaluations++
+		c16OddRoot(c, js)
+	}
+	// the nil Map and the Map with zero entries
+	for _, js := range []string{"null", "{}"} {
+		if !c.Mine() {
+			continue
+		}
+		c.S.States++
+		c.S.Evaluations++
+		c16Explore(c, c16Source{kind: "map", js: js}, 1, false)
+	}
 	// lists of Maps
 	pick := []string{`<a/>`, `<a x="1">t</a>`, `<r><b>&lt;1&gt;</b><a/></r>`, `<r><a>1</a><a>2</a></r>`}
 	var lists [][]string
@@ -735,4 +759,46 @@ func c16Run(c *Ctx) {
 	}
 	rt.OrderPolicy = rt.PolicySorted
 	resetOptions()
+}
+
+// c16OddRoot: variants agree on a Map whose root key is a special key (no well-formedness is claimed).
+func c16OddRoot(c *Ctx, js string) {
+	cas := func() interface{} { return c16Case{Kind: "odd-root", Json: json.RawMessage(js), Pol: rt.OrderPolicy} }
+	build := func() mxj.Map { return mxj.Map(fromJSON(js).(map[string]interface{})) }
+	strip := func(b []byte) string {
+		return strings.Map(func(r rune) rune {
+			if r == ' ' || r == '\n' || r == '\t' {
+				return -1
+			}
+			return r
+		}, string(b))
+	}
+	var x, x2, xi, xw, xiw []byte
+	var e1, e2, e3, e4, e5 error
+	st, pan := protect(func() {
+		x, e1 = build().Xml()
+		x2, e2 = build().Xml()
+		xi, e3 = build().XmlIndent("", "  ")
+		var b1, b2 bytes.Buffer
+		e4 = build().XmlWriter(&b1)
+		e5 = build().XmlIndentWriter(&b2, "", "  ")
+		xw, xiw = b1.Bytes(), b2.Bytes()
+	})
+	c.S.Transitions += 5
+	c.S.Validated++
+	if pan {
+		c.Violate("Map.Xml", "panic", "odd-root", cas, nil, st)
+		return
+	}
+	errs := fmt.Sprint(e1 != nil, e2 != nil, e3 != nil, e4 != nil, e5 != nil)
+	if errs != "false false false false false" && errs != "true true true true true" {
+		c.Violate("Map.Xml", "variants-agree", "odd-root", cas, nil, fmt.Sprintf("map=%s: error-ness differs between Xml, Xml, XmlIndent, XmlWriter, XmlIndentWriter: %s", js, errs))
+		return
+	}
+	if e1 != nil {
+		return
+	}
+	if !bytes.Equal(x, x2) || !bytes.Equal(x, xw) || !bytes.Equal(xi, xiw) || strip(x) != strip(xi) {
+		c.Violate("Map.Xml", "variants-agree", "odd-root", cas, nil, fmt.Sprintf("map=%s\n Xml            =%q\n Xml again      =%q\n XmlWriter      =%q\n XmlIndent      =%q\n XmlIndentWriter=%q", js, x, x2, xw, xi, xiw))
+	}
 }
